@@ -211,7 +211,12 @@ func (mt *MarkdownTable) emitRow(
 			return err
 		}
 	}
-	if _, err := fmt.Fprint(w, mt.mdPaddedCellEscape(cells, widths, alignments, i), barRight); err != nil {
+	if max == 0 {
+		// a row without any cells: its first column is blank like the other missing ones
+		if _, err := fmt.Fprint(w, strings.Repeat(" ", widths[0]), barRight); err != nil {
+			return err
+		}
+	} else if _, err := fmt.Fprint(w, mt.mdPaddedCellEscape(cells, widths, alignments, i), barRight); err != nil {
 		return err
 	}
 	i++
